@@ -14,7 +14,7 @@ from ..rules import ncallee
 META = {
     "level": "other",
     "technique": "control-dependence of `continue` on option fields (typed HIR), error-propagation classification of listing/read calls, expression shape of the summary counts, comparator truth tables in verify_rebuild",
-    "claim": "Decides that rebuild can only omit files the options exclude, that no listing/read error is turned into an empty or shorter file set, that the reported counts are computed from the measured lists, and that verification fails on count or content difference. Does not compare archive contents across version pairs. Also: every extracted file is re-added; listfile generation is disabled only on evidence from the re-added collection; the build phase is bypassed only by list_only; listed files are read by name. Wave 5: bool option fields are wired from the same-named flag; the summary's skipped count subtracts values of one enumeration (or saturates). Wave 6: verify_rebuild skips exactly the files extract_files_with_metadata skips, for every option pair / name class / flag word. Wave 7: every listing of rebuild.rs accounts for a (listfile) that does not name itself; Archive::list yields each table entry once; the comparison summary counts files (a set of names), not per-aspect differences.",
+    "claim": "Decides that rebuild can only omit files the options exclude, that no listing/read error is turned into an empty or shorter file set, that the reported counts are computed from the measured lists, and that verification fails on count or content difference. Does not compare archive contents across version pairs. Also: every extracted file is re-added; listfile generation is disabled only on evidence from the re-added collection; the build phase is bypassed only by list_only; listed files are read by name. Wave 5: bool option fields are wired from the same-named flag; the summary's skipped count subtracts values of one enumeration (or saturates). Wave 6: verify_rebuild skips exactly the files extract_files_with_metadata skips, for every option pair / name class / flag word. Wave 7: every listing of rebuild.rs accounts for a (listfile) that does not name itself; Archive::list yields each table entry once; the comparison summary counts files (a set of names), not per-aspect differences. The builder's key-from-final-flags and size-operand rules are armed here too (rebuild re-adds encrypted files through write_file).",
     "note": "Trusted: Archive::list/read_file report failure through Result; ArchiveBuilder round-trip (C01).",
     "assumptions": ["files enumerated by list() are exactly the source's listed files"],
     "explanation": "rebuild.rs: rebuild_archive, extract_files_with_metadata, rebuild_with_files, verify_rebuild; the CLI rebuild command.",
@@ -505,3 +505,9 @@ def _listing_rules(ctx, mpq):
             else:
                 ctx.bad(R_cmp, "compare_archives|summary", "%s:%d" % (ca.file, lit.get("ln") or 0), "different_files is built from %d list lengths (%s), identical_files subtracts %d of them from the common count" % (len(dl), ", ".join(d[0].split(".")[-1] for d in dl)[:80], subs),
                         "a file that differs in two aspects (size and flags, size and content) is counted twice as different and subtracted twice: with few common files the subtraction underflows — a panic in debug builds, identical_files = 18446744073709551615 in release")
+
+    # (4) the rebuild's write side is ArchiveBuilder::write_file: a re-added FIX_KEY / encrypted file is bit-identical only if the
+    # key is derived from the flags the block entry ends up with and from the uncompressed size (rules shared with C01 / C02 / C06)
+    from .c01 import key_from_final_flags_rule, key_size_operand_rule
+    key_from_final_flags_rule(ctx, mpq, "C07")
+    key_size_operand_rule(ctx, mpq, "C07")
